@@ -646,6 +646,45 @@ def x5_x7(ctx):
                 r7.inst('skipnodes-method:' + name, {'method': name, 'shrinking_operations': muts})
                 if muts and name in uses:
                     r7.fail('%s:skip-list-shrinks:%s' % (CRATE, name), pp.where(m_['l']), 'SkipNodes::%s removes or reorders entries (%s)' % (name, muts))
+        # membership is structural equality: only nodes that carry a Locate (hence a position) are unique in the tree, so the list must
+        # not admit Locate-less nodes (an empty branch body would then match every other empty branch body of the file)
+        sk = {name: m_ for (ty, name), m_ in pp.methods.items() if ty.startswith('SkipNodes')}
+        if 'push' in sk and 'contains' in sk:
+            ct = sq(sk['contains']['body'])
+            structural = '.contains(' in ct or '==' in ct
+            by_identity = 'ptr::eq' in ct or 'as*const' in ct
+            appends = [n for n in sx.walk(sk['push']['body']) if n.get('k') == 'mcall' and n['m'] in ('push', 'insert', 'extend') and 'self.' in sq(n['recv'])]
+            r7.inst('skip-list-membership', {'contains': ct[:60], 'structural': structural, 'appends': len(appends)})
+            if structural and not by_identity and len(appends) == 1:
+                guarded = False
+
+                def under_if(node, acc):
+                    nonlocal guarded
+                    if node is appends[0]:
+                        guarded = bool(acc)
+                        return
+                    if isinstance(node, dict):
+                        if node.get('k') == 'if':
+                            under_if(node['t'], acc + [node['c']])
+                            if 'e' in node:
+                                under_if(node['e'], acc + [node['c']])
+                            return
+                        for v_ in node.values():
+                            if isinstance(v_, (dict, list)):
+                                under_if(v_, acc)
+                    elif isinstance(node, list):
+                        for v_ in node:
+                            under_if(v_, acc)
+                under_if(sk['push']['body'], [])
+                mentions_locate = 'RefNode::Locate' in sq(sk['push']['body']) or 'Locate' in sq(sk['push']['body'])
+                if not guarded and not mentions_locate:
+                    r7.fail('%s:skip-list-admits-unlocated-nodes' % CRATE, pp.where(sk['push']['l']),
+                            'SkipNodes::contains identifies a node by structural equality, and SkipNodes::push admits every node: a node without a Locate '
+                            '(an empty branch body) then equals every other such node of the file, so a nested empty branch inside a discarded branch ends the skipping early')
+                elif not (guarded and mentions_locate):
+                    r7.undecided('%s:skip-list-admits-unlocated-nodes' % CRATE, pp.where(sk['push']['l']), 'how SkipNodes::push filters Locate-less nodes is not recognised')
+            elif not by_identity and not structural:
+                r7.undecided('%s:skip-list-membership' % CRATE, pp.where(sk['contains']['l']), 'how SkipNodes::contains identifies a node is not recognised')
     return [r5, r6, r7]
 
 
